@@ -1,4 +1,61 @@
-(* C10/Properties.v — property C10 (statements only). Under construction. *)
+(* C10/Properties.v — property C10: host trie-root functions compute spec roots.
+   Only statements, each closed by `exact <lemma>`, with Print Assumptions beneath.
+
+   host_root H version data / host_ordered_root H version data : model of
+       ext_trie_blake2_256_root_version_2 / ext_trie_blake2_256_ordered_root_version_2 (version_1 is the
+       same with version 0) on the guest bytes `data`: None = null pointer, Some r = the 32 bytes written.
+   spec_host_root / spec_host_ordered_root : failure for a version other than 0/1 or for input that is
+       not a SCALE Vec<(Vec<u8>,Vec<u8>)> (resp. Vec<Vec<u8>>); otherwise the spec root
+       (canonical trie by LCP/bucketing, hashed encoding) of the finite map the entry list denotes
+       (later duplicates win; the i-th value of the ordered root is keyed by compact(i)). *)
 From Common Require Import Bytes.
 From Trie Require Import Nibbles Node Encode Model Spec.
-From C10 Require Import Model.
+From Scale Require Import Compact.
+From C10 Require Import Model Proofs.
+Local Open Scope N_scope.
+
+Theorem C10_root_spec : forall H version data, host_root H version data = spec_host_root H version data.
+Proof. exact host_root_spec. Qed.
+Print Assumptions C10_root_spec.
+
+Theorem C10_ordered_root_spec : forall H version data,
+  host_ordered_root H version data = spec_host_ordered_root H version data.
+Proof. exact host_ordered_root_spec. Qed.
+Print Assumptions C10_ordered_root_spec.
+
+(* failure for an unknown version (2..255) and for undecodable input *)
+Theorem C10_failure : forall H v data,
+  (2 <= v -> v < 256 -> host_root H v data = None /\ host_ordered_root H v data = None) /\
+  (dec_entries data = None -> host_root H v data = None) /\
+  (dec_values data = None -> host_ordered_root H v data = None).
+Proof.
+  intros H v data. split; [exact (unknown_version_fails H v data)|exact (undecodable_fails H v data)].
+Qed.
+Print Assumptions C10_failure.
+
+(* every entry list is decodable from its SCALE encoding (whatever follows it), so the functions
+   return the spec root for every entry list, with duplicates and empty values *)
+Theorem C10_total_on_encodings : forall H ver es vs r,
+  small es -> Forall (fun e => small (fst e) /\ small (snd e)) es ->
+  small vs -> Forall small vs ->
+  host_root H (match ver with V0 => 0 | V1 => 1 end) (enc_entries es ++ r)
+    = Some (spec_root_bytes H ver (bm_of_list es)) /\
+  host_ordered_root H (match ver with V0 => 0 | V1 => 1 end) (enc_values vs ++ r)
+    = Some (spec_root_bytes H ver (bm_of_list (index_entries 0 vs))).
+Proof.
+  intros H ver es vs r S1 F1 S2 F2. rewrite host_root_spec, host_ordered_root_spec.
+  unfold spec_host_root, spec_host_ordered_root.
+  rewrite (dec_enc_entries es r S1 F1), (dec_enc_values vs r S2 F2). destruct ver; split; reflexivity.
+Qed.
+Print Assumptions C10_total_on_encodings.
+
+(* non-vacuity: duplicates (the later value wins), an empty value, index keys crossing the
+   one-byte compact mode, an unknown version, a truncated input *)
+Example C10_nonvacuous :
+  let es := [([n2b 1], [n2b 170]); ([n2b 1; n2b 2], []); ([n2b 1], [n2b 187])] in
+  dec_entries (enc_entries es) = Some es /\
+  bm_of_list es = [([n2b 1], [n2b 187]); ([n2b 1; n2b 2], [])] /\
+  dec_entries (removelast (enc_entries es)) = None /\
+  parse_version 2 = None /\ parse_version 1 = Some V1 /\
+  fst (nth 64 (index_entries 0 (repeat [n2b 7] 70)) ([], [])) = [n2b 1; n2b 1].
+Proof. vm_compute. repeat split; reflexivity. Qed.
